@@ -402,3 +402,60 @@ Proof.
   - intros a Ha. rewrite Hn in Ha. unfold in_formals. apply in_map_iff in Ha as [f [<- Hfin]]. apply in_map. apply filter_In. split; [exact Hfin|].
     rewrite Forall_forall in Hin. now rewrite (Hin f Hfin).
 Qed.
+
+(* ---------- single-threaded ports: pass-through, in the caller's context, nothing queued ---------- *)
+
+Lemma sts_accessor p : cp_is_mts p = false -> accessor_obj p = Enc (cp_name p).
+Proof. unfold accessor_obj. now intros ->. Qed.
+
+Theorem sts_provides_in_event_end_to_end sc fc pp rp L : ctor_assigns fc pp rp = Ok L -> hygienic pp rp ->
+  forall p e vs c, In p pp -> cp_is_mts p = false -> In e (events_of EIn p) ->
+  call sc 1 (world0 pp rp L) (sl (Enc (cp_name p)) DIn e) vs c =
+  ({| w_slots := final_slots L pp rp; w_queue := [];
+      w_trace := [{| r_who := ENC; r_slot := sl (Enc (cp_name p)) DIn e; r_args := vs; r_ctx := c |}] |},
+   Done (fst (sc (sl (Enc (cp_name p)) DIn e) vs)) (snd (sc (sl (Enc (cp_name p)) DIn e) vs))).
+Proof.
+  intros HL Hyg p e vs c Hp Hs He.
+  apply (sts_direct sc pp rp L (hygienic_init pp rp Hyg) (hygienic_user pp rp Hyg)). left.
+  split; [now apply enc_in_init|]. split; [now apply (enc_in_not_assigned pp rp Hyg fc L)|]. split; [now apply enc_in_not_user|].
+  intros q H; discriminate H.
+Qed.
+
+Theorem sts_provides_out_event_end_to_end sc fc pp rp L : ctor_assigns fc pp rp = Ok L -> hygienic pp rp ->
+  forall p e vs c, In p pp -> cp_is_mts p = false -> In e (events_of EOut p) ->
+  call sc 1 (world0 pp rp L) (sl (Enc (cp_name p)) DOut e) vs c =
+  ({| w_slots := final_slots L pp rp; w_queue := [];
+      w_trace := [{| r_who := USER; r_slot := sl (Enc (cp_name p)) DOut e; r_args := vs; r_ctx := c |}] |},
+   Done (fst (sc (sl (Enc (cp_name p)) DOut e) vs)) (snd (sc (sl (Enc (cp_name p)) DOut e) vs))).
+Proof.
+  intros HL Hyg p e vs c Hp Hs He.
+  apply (sts_direct sc pp rp L (hygienic_init pp rp Hyg) (hygienic_user pp rp Hyg)). right.
+  unfold user_binds. apply in_or_app. left. apply in_flat_map. exists p. split; [exact Hp|]. apply in_map_iff. exists e.
+  rewrite (sts_accessor p Hs). auto.
+Qed.
+
+Theorem sts_requires_out_event_end_to_end sc fc pp rp L : ctor_assigns fc pp rp = Ok L -> hygienic pp rp ->
+  forall p e vs c, In p rp -> cp_is_mts p = false -> In e (events_of EOut p) ->
+  call sc 1 (world0 pp rp L) (sl (Enc (cp_name p)) DOut e) vs c =
+  ({| w_slots := final_slots L pp rp; w_queue := [];
+      w_trace := [{| r_who := ENC; r_slot := sl (Enc (cp_name p)) DOut e; r_args := vs; r_ctx := c |}] |},
+   Done (fst (sc (sl (Enc (cp_name p)) DOut e) vs)) (snd (sc (sl (Enc (cp_name p)) DOut e) vs))).
+Proof.
+  intros HL Hyg p e vs c Hp Hs He.
+  apply (sts_direct sc pp rp L (hygienic_init pp rp Hyg) (hygienic_user pp rp Hyg)). left.
+  split; [now apply enc_out_init|]. split; [now apply (enc_out_not_assigned_rp pp rp Hyg fc L)|]. split; [now apply (enc_out_not_user_rp pp rp Hyg)|].
+  intros q H; discriminate H.
+Qed.
+
+Theorem sts_requires_in_event_end_to_end sc fc pp rp L : ctor_assigns fc pp rp = Ok L -> hygienic pp rp ->
+  forall p e vs c, In p rp -> cp_is_mts p = false -> In e (events_of EIn p) ->
+  call sc 1 (world0 pp rp L) (sl (Enc (cp_name p)) DIn e) vs c =
+  ({| w_slots := final_slots L pp rp; w_queue := [];
+      w_trace := [{| r_who := USER; r_slot := sl (Enc (cp_name p)) DIn e; r_args := vs; r_ctx := c |}] |},
+   Done (fst (sc (sl (Enc (cp_name p)) DIn e) vs)) (snd (sc (sl (Enc (cp_name p)) DIn e) vs))).
+Proof.
+  intros HL Hyg p e vs c Hp Hs He.
+  apply (sts_direct sc pp rp L (hygienic_init pp rp Hyg) (hygienic_user pp rp Hyg)). right.
+  unfold user_binds. apply in_or_app. right. apply in_flat_map. exists p. split; [exact Hp|]. apply in_map_iff. exists e.
+  rewrite (sts_accessor p Hs). auto.
+Qed.
